@@ -30,6 +30,15 @@ Theorem C09_tkip_roundtrip : forall ta tk b0 b1 b2 b3 b4 b5 b6 b7 m mic key,
 Proof. exact tkip_roundtrip. Qed.
 Print Assumptions C09_tkip_roundtrip.
 
+(* CCMP: for ANY block function with 16-byte output (AES under the temporal key is one), every header variant, packet
+   number and non-empty payload, decryption inverts the sender's CCM encapsulation - although it runs in place over
+   overlapping ranges and handles a partial last block *)
+Theorem C09_ccmp_roundtrip : forall E, (forall x, length (E x) = 16%nat) ->
+  forall h b0 b1 b2 b3 b4 b5 b6 b7 m, m <> [] ->
+  ccmp_decrypt E h (ccmp_encrypt E h b0 b1 b2 b3 b4 b5 b6 b7 m) = Ok (Some m).
+Proof. exact ccmp_roundtrip. Qed.
+Print Assumptions C09_ccmp_roundtrip.
+
 (* nothing is reported as decrypted unless the integrity value verifies *)
 Theorem C09_wep_needs_icv : forall pload pw m, wep_decrypt pload pw = Ok (Some m) ->
   exists buf, rc4_go (Z.to_nat (zlen pload - 4)) (ksa ([nthz pload 0; nthz pload 1; nthz pload 2] ++ pw)) 0 0 pload 4 0 = Ok buf /\
